@@ -27,6 +27,9 @@ func init() {
 		replayGen{match: func(o *Obligation) bool {
 			return strings.HasPrefix(o.Name, "common.NormalizedEpochDuration/post/weekday-is-host-independent")
 		}, gen: genEpochDurationZone},
+		replayGen{match: func(o *Obligation) bool {
+			return regexp.MustCompile(`^\(\*vm\.VmImpl\)\.Run/preserves/ledger-objects/bigval@\(\*vm/embedded\.OracleVoting2?\)\.Terminate`).MatchString(o.Name)
+		}, gen: genTerminateOutOfGas},
 	)
 }
 
@@ -291,3 +294,98 @@ func TestVerifReplay(t *testing.T) {
 `, o.Name, secN.String(), off, size, v12, v12, off)
 	return src, "common"
 }
+
+// genTerminateOutOfGas: the oracle-voting Terminate subtracts in place from the number it got from
+// env.Balance, which is the ledger's own big.Int when nothing is buffered yet. A termination that
+// then runs out of gas is not committed, but the ledger object already carries the new value. The
+// scenario (deploy, fund, start, nobody votes, terminate with growing gas limits) runs through the
+// real vm.Run; the model gives no inputs (the obligation comes from the write-set analysis).
+func genTerminateOutOfGas(o *Obligation, P *Program) (string, string) {
+	return "// Replay of obligation " + o.Name + "\n" + terminateOutOfGasTest, "vm"
+}
+
+const terminateOutOfGasTest = `package vm
+
+import (
+	"fmt"
+	"math/big"
+	"testing"
+
+	"github.com/idena-network/idena-go/blockchain/attachments"
+	"github.com/idena-network/idena-go/blockchain/types"
+	"github.com/idena-network/idena-go/common"
+	"github.com/idena-network/idena-go/common/eventbus"
+	"github.com/idena-network/idena-go/config"
+	"github.com/idena-network/idena-go/core/appstate"
+	"github.com/idena-network/idena-go/core/state"
+	"github.com/idena-network/idena-go/crypto"
+	"github.com/idena-network/idena-go/vm/embedded"
+	dbm "github.com/tendermint/tm-db"
+)
+
+func replayHeader(height uint64, time int64) *types.Header {
+	seed := types.Seed{}
+	seed.SetBytes(common.ToBytes(height))
+	return &types.Header{ProposedHeader: &types.ProposedHeader{BlockSeed: seed, Height: height, Time: time}}
+}
+
+// Replay: a TerminateContractTx that runs out of gas after the oracle-voting contract has computed
+// its pay-outs must leave the ledger untouched.
+func TestVerifReplay(t *testing.T) {
+	for _, upgrade10 := range []bool{true, false} {
+		appState, _ := appstate.NewAppState(dbm.NewMemDB(), eventbus.New())
+		appState.State.SetFeePerGas(big.NewInt(1))
+		key, _ := crypto.GenerateKey()
+		owner := crypto.PubkeyToAddress(key.PublicKey)
+		appState.State.SetBalance(owner, new(big.Int).Mul(common.DnaBase, big.NewInt(100)))
+		appState.State.SetPubKey(owner, crypto.FromECDSAPub(&key.PublicKey))
+		appState.State.SetState(owner, state.Human)
+		appState.IdentityState.SetValidated(owner, true)
+		appState.Commit(nil)
+		appState.Initialize(1)
+		conf := &config.Config{Consensus: config.GetDefaultConsensusConfig()}
+		conf.Consensus.EnableUpgrade10 = upgrade10
+
+		// deploy
+		params := [][]byte{{0x1}, common.ToBytes(uint64(10)), common.ToBytes(uint64(4320)), common.ToBytes(uint64(4320)),
+			common.ToBytes(byte(51)), common.ToBytes(byte(20)), common.ToBytes(uint64(100)), nil, common.ToBytes(byte(10)), nil, nil}
+		payload, _ := attachments.CreateDeployContractAttachment(embedded.OracleVotingContract, nil, nil, params...).ToBytes()
+		tx, _ := types.SignTx(&types.Transaction{AccountNonce: 1, Type: types.DeployContractTx, Amount: common.DnaBase, Payload: payload}, key)
+		r := NewVmImpl(appState, nil, replayHeader(2, 5), nil, conf).Run(tx, nil, -1, true)
+		if !r.Success {
+			t.Skip("deploy failed: ", r.Error)
+		}
+		contract := r.ContractAddress
+		appState.State.SetBalance(contract, new(big.Int).Mul(common.DnaBase, big.NewInt(10000000)))
+		appState.Commit(nil)
+
+		// start voting
+		payload, _ = attachments.CreateCallContractAttachment("startVoting").ToBytes()
+		tx, _ = types.SignTx(&types.Transaction{AccountNonce: 2, Type: types.CallContractTx, To: &contract, Payload: payload}, key)
+		r = NewVmImpl(appState, nil, replayHeader(3, 21), nil, conf).Run(tx, nil, -1, true)
+		if !r.Success {
+			t.Skip("startVoting failed: ", r.Error)
+		}
+		appState.Commit(nil)
+
+		// terminate long after the voting with nobody having voted, with growing gas limits
+		payload, _ = attachments.CreateTerminateContractAttachment().ToBytes()
+		tx, _ = types.SignTx(&types.Transaction{AccountNonce: 3, Type: types.TerminateContractTx, To: &contract, Payload: payload}, key)
+		head := replayHeader(3+4320*2+4320*30, 21+20*4320*32)
+		before := new(big.Int).Set(appState.State.GetBalance(contract))
+		for gas := int64(1); gas < 2000000; gas += 7 {
+			r = NewVmImpl(appState, nil, head, nil, conf).Run(tx, nil, gas, true)
+			after := appState.State.GetBalance(contract)
+			if !r.Success && after.Cmp(before) != 0 {
+				fmt.Printf("VERIF-REPLAY-VIOLATION: upgrade10=%v: TerminateContractTx with gas limit %d FAILED (%v) but the ledger balance of the contract changed from %v to %v\n", upgrade10, gas, r.Error, before, after)
+				t.Fail()
+				break
+			}
+			if r.Success {
+				fmt.Printf("upgrade10=%v: terminate succeeded with gas limit %d without leaving a trace before\n", upgrade10, gas)
+				break
+			}
+		}
+	}
+}
+`
